@@ -1,15 +1,15 @@
 #!/bin/bash
-# try_mutant.sh <dir with patch.diff> <check id>...   : apply a seeded change to /repo, run the checks, undo it.
+# try_mutant.sh <dir with patch.diff> <check id>... : apply a seeded change to a PRIVATE scratch worktree of /repo
+# (never to /repo itself), run the checks against it (SPIL_REPO), remove the worktree.
 # Evidence of these runs goes to a scratch directory (never to /verif/evidence).
 d=$1; shift
-cd /repo || exit 2
-if [ -n "$(git status --porcelain)" ]; then echo "/repo is not clean"; exit 2; fi
-git apply "$d/patch.diff" || { echo "patch does not apply"; exit 2; }
-trap 'git -C /repo checkout -- . ; git -C /repo clean -fdq spil spil_hamlet_conf 2>/dev/null' EXIT
+wt=$(mktemp -d /tmp/mutrepo-XXXXXX); rmdir $wt
+git -C /repo worktree add -q --detach $wt HEAD || exit 2
+trap 'git -C /repo worktree remove --force '$wt' 2>/dev/null; git -C /repo worktree prune' EXIT
+git -C $wt apply "$d/patch.diff" || { echo "patch does not apply"; exit 2; }
 cd /verif
 for c in "$@"; do
-  out=$(VERIF_EVIDENCE_DIR=/tmp/mut/ev ./check $c --tier quick 2>&1 | tail -4)
-  rc=$?
+  out=$(SPIL_REPO=$wt VERIF_EVIDENCE_DIR=/tmp/mut/ev ./check $c --tier ${TIER:-quick} 2>&1 | grep -v '^KNOWN-FINDING' | tail -4)
   echo "== $c: $(echo "$out" | grep -c VIOLATION) violation line(s)"
   echo "$out" | cut -c1-300
 done
